@@ -313,7 +313,7 @@ func filterParams(ps []*Param, name string) []*Param {
 }
 
 var structKinds = []string{"endpoint:remove", "consumes:remove", "param:add-required", "param:optional->required", "param:in-change",
-	"param:collectionFormat-change", "body.property:add-required", "body.property:becomes-required", "body:add-required", "body:optional->required",
+	"param:collectionFormat-change", "param:collectionFormat(omitted->pipes)", "param(header):collectionFormat(omitted->ssv)", "body.property:add-required", "body.property:becomes-required", "body:add-required", "body:optional->required",
 	"param(header):optional->required", "param(formData):optional->required"}
 var respKinds = []string{"response:remove", "response.property:remove", "response.header:remove", "response.enum:grow",
 	"response.property(nested):remove", "response.enum(ref):grow"}
@@ -384,14 +384,22 @@ func structural(g *G, base *Spec, kind string) *CatEdit {
 			}
 		}
 		e.A, e.B, e.Witness = a, b, "request carrying w in the query string only"
-	case "param:collectionFormat-change":
+	case "param:collectionFormat-change", "param:collectionFormat(omitted->pipes)", "param(header):collectionFormat(omitted->ssv)":
 		pi, op := pickOp(g, a, false)
-		op.Params = append(filterParams(op.Params, "w"), &Param{Name: "w", In: "query", Chain: []*Simple{{Type: "array", CF: "csv"}, {Type: "integer"}}})
+		// an omitted collectionFormat means csv: going from omitted to another format breaks the same requests
+		in, from, to := "query", "csv", "pipes"
+		switch kind {
+		case "param:collectionFormat(omitted->pipes)":
+			from = ""
+		case "param(header):collectionFormat(omitted->ssv)":
+			in, from, to = "header", "", "ssv"
+		}
+		op.Params = append(filterParams(op.Params, "w"), &Param{Name: "w", In: in, Chain: []*Simple{{Type: "array", CF: from}, {Type: "integer"}}})
 		b := a.Clone()
 		opb := findOp(b, pi.URL, op.Method)
 		for _, p := range opb.Params {
 			if p.Name == "w" {
-				p.Chain[0].CF = "pipes"
+				p.Chain[0].CF = to
 			}
 		}
 		e.A, e.B, e.Witness = a, b, "request with w=1,2 (csv): not an integer list under pipes"
